@@ -290,6 +290,48 @@ def _judge_crash(env, rec, state, scenario, evald):
     return [(f"crash:{_phase(rec, state)}-loses-old-pairings", detail)], "lost"
 
 
+def _judge_recover(env, rec, state, scenario, evald, seed):
+    """The session after the crash: a complete save of some pairing set into the directory the crash left behind (stale temporary files and
+    all) must read back as exactly that set."""
+    pool = _pool(seed)
+    s1, s2 = SCENARIOS[scenario]
+    out = []
+    nrun = 0
+    done = []
+    for label, members in (("the-old-set", s1), ("the-new-set", s2), ("no-pairings", [])):
+        if members in done:
+            continue
+        done.append(members)
+        env.fresh(evald)
+        crashfs.materialise(state["files"], evald)
+        fname = os.path.join(evald, TARGET)
+        c = _controller()
+        _apply_members(c, members, pool)
+        nrun += 1
+        try:
+            c.save_data(fname)
+        except Exception as e:  # noqa: BLE001
+            out.append((f"recover:save-after-crash-raises:{type(e).__name__}", {"scenario": scenario, "saving": label, "crash_after_operation": state["point"], "leftover_files": sorted(state["files"]), "err": str(e)[:160]}))
+            continue
+        got = _load(fname)
+        if got[0] != "ok" or got[1] != _expected_view(members, pool):
+            out.append(("recover:complete-save-after-crash-not-read-back", {
+                "scenario": scenario, "saving": label, "crash_after_operation": state["point"], "last_completed_operation": state["after"],
+                "leftover_files": {k: len(v) for k, v in state["files"].items()}, "surviving_bytes_of_unsynced_files": state["persist"],
+                "fresh_controller_load": got[:3] if got[0] == "raises" else {"aliases": sorted(got[1][0])}, "wanted_aliases": sorted(_expected_view(members, pool)[0]),
+            }))
+    return out, nrun
+
+
+def case_recover(p):
+    with _Env() as env:
+        rec = _record_save(env, p["scenario"], p.get("seed", 0))
+        files = crashfs.state_at(rec["initial"], rec["log"], p["point"], p.get("persist", {}))
+        after = crashfs.describe(rec["log"][p["point"] - 1]) if p["point"] else "save not started"
+        state = {"point": p["point"], "after": after, "persist": p.get("persist", {}), "files": files}
+        return _judge_recover(env, rec, state, p["scenario"], env.sub(), p.get("seed", 0))[0]
+
+
 def case_crash(p):
     """p: scenario, point (completed operations of save2), persist ({file: surviving bytes} for unsynced files), seed."""
     with _Env() as env:
@@ -315,6 +357,10 @@ def _work_crash(item, seed, tier):
                      sample={"case": "crash", "params": params}, symbols=("crash", f"crash:{scenario}", f"crash:after:{st['after'].split('(')[0]}"))
             for sig, detail in v:
                 acc.violation(sig, "crash", params, detail)
+            v2, nrun = _judge_recover(env, rec, st, scenario, evald, seed)
+            acc.extra["saves_into_post_crash_directories"] += nrun
+            for sig, detail in v2:
+                acc.violation(sig, "recover", params, detail)
         if lo == 0:
             acc.extra["crash_points_incl_every_byte"] += stats["byte_points"]
             acc.extra["crash_point_x_persistence_pairs"] += stats["pairs"]
@@ -893,6 +939,7 @@ def _work_cache_crash(item, seed, tier):
 
 CASES = {
     "crash": case_crash,
+    "recover": case_recover,
     "pairings": case_pairings,
     "database": case_database,
     "cache": case_cache,
@@ -1026,7 +1073,9 @@ def run(ctx):
     ctx.exhaustive = True
     a = ctx.acc
     for name in CASES:
-        ctx.require(a.symbols[name] > 0, f"case family {name} never ran")
+        if name != "recover":
+            ctx.require(a.symbols[name] > 0, f"case family {name} never ran")
+    ctx.require(a.extra["saves_into_post_crash_directories"] >= 1000, "recovery saves into post-crash directories not exercised")
     for sc in scenarios:
         ctx.require(a.symbols[f"crash:{sc}"] == nstates[sc], f"crash scenario {sc}: {a.symbols[f'crash:{sc}']} of {nstates[sc]} states evaluated")
     for s in ("crash:after:open", "crash:after:write", "crash:after:save not started", "cache:prefix", "cache:ff", "cache:nul", "cache:quote", "cache:nultail",
